@@ -10,7 +10,9 @@ package interp
 
 import (
 	"go/types"
+	"sort"
 )
+
 
 type hashable interface {
 	hash(t types.Type) int
@@ -47,6 +49,45 @@ func (m *omap) len() int {
 func (m *omap) find(k value) *oent {
 	if m == nil {
 		return nil
+	}
+	if s, ok := k.(sym); ok && m.n > 6 && m.nsym == 0 {
+		// large map, symbolic scalar key: first decide "is the key present at
+		// all" (one disjunction), then enumerate the feasible present keys,
+		// instead of forking on equality per entry
+		present := sctx.False
+		if kindIsInt(s.k) {
+			// compress the concrete keys into value ranges
+			var ks []uint64
+			for _, e := range m.ents {
+				if !e.deleted {
+					ks = append(ks, lift(e.key).C)
+				}
+			}
+			sort.Slice(ks, func(i, j int) bool { return ks[i] < ks[j] })
+			w := s.e.S.W
+			for i := 0; i < len(ks); {
+				j := i
+				for j+1 < len(ks) && ks[j+1] == ks[j]+1 {
+					j++
+				}
+				if i == j {
+					present = sctx.Or(present, sctx.Eq(s.e, sctx.BVC(ks[i], w)))
+				} else {
+					present = sctx.Or(present, sctx.And(sctx.BvUle(sctx.BVC(ks[i], w), s.e), sctx.BvUle(s.e, sctx.BVC(ks[j], w))))
+				}
+				i = j + 1
+			}
+		} else {
+			for _, e := range m.ents {
+				if !e.deleted {
+					present = sctx.Or(present, sctx.Eq(s.e, lift(e.key)))
+				}
+			}
+		}
+		if !ex.branch(present) {
+			return nil
+		}
+		k = ex.concretize(s, "map key")
 	}
 	if !hasSym(k) {
 		h := hash(m.keyType, m.keyType, k)
